@@ -417,7 +417,7 @@ fn udp_batch(rng: &mut Rng, inst: &Instance, bufs: &mut Buffers) -> Result<Strin
 }
 
 pub fn run(ctx: &Ctx, rep: &mut Report) {
-    let instances = ctx.cases(32, 480);
+    let instances = ctx.cases(32, 160);
     let batches = if ctx.thorough { 60 } else { 12 };
     for case in ctx.case_range(instances) {
         rep.current_case = case;
